@@ -18,6 +18,8 @@
 #include "tlwe_functions.h"
 #include "tgsw_functions.h"
 #include "numeric_functions.h"
+#include "guard_new.h"
+static int g_guard = 0;   // op "guard 1": ciphertexts and temporaries of gatecase/netlist/tgsw/boot end at inaccessible pages (keys stay on the ordinary heap)
 
 typedef long long ll;
 typedef std::vector<ll> V;
@@ -57,6 +59,7 @@ static void dump_lwe(const LweSample *s, int n, V &r) { for (int i = 0; i < n; i
 
 // ---- tgsw: opc k N l B ... ----
 static void op_tgsw(const V &a, V &r) {
+    vguard::Scope gs(g_guard);
     int opc = a[0] % 100; bool fft = a[0] >= 100;
     RP p(a[1], a[2], a[3], a[4]);
     const ll *v = a.data() + 5;
@@ -123,6 +126,7 @@ static void op_tgsw(const V &a, V &r) {
 
 // ---- boot: opc k N l B n bk... ----
 static void op_boot(const V &a, V &r) {
+    vguard::Scope gs(g_guard);
     int opc = a[0] % 100; bool fft = a[0] >= 100;
     RP p(a[1], a[2], a[3], a[4]); int n = a[5];
     const ll *v = a.data() + 6;
@@ -183,8 +187,6 @@ static void op_bkgen(const V &a, V &r) {
 }
 
 #include "keys_common.h"
-#include "guard_new.h"
-static int g_guard = 0;   // op "guard 1": ciphertexts and temporaries of gatecase/netlist end at inaccessible pages (keys stay on the ordinary heap)
 // fullkey spec -> n N k l B t bb, then s(n)
 static void op_fullkey(const V &a, V &r) {
     need_keys(a);
